@@ -1384,6 +1384,15 @@ def r5_contract(program, rep):
                 t[2] == ("const", 0) and t[3][0] == "attr" and
                 t[3][2] == "goodness" for t, p in facts)
             okl = okl and (met or stuck)
+    if not okl and len(lp) == 1 and isinstance(lp[0].test, (
+            ast.Name, ast.UnaryOp)) and not isinstance(
+                lp[0].test, ast.Compare):
+        t_ = lp[0].test.operand if isinstance(lp[0].test, ast.UnaryOp) \
+            else lp[0].test
+        if isinstance(t_, ast.Name):
+            raise AnalysisError("ordered_covering: the merge loop runs "
+                                "under a flag variable (%s); the paths that "
+                                "set it are not followed" % t_.id)
     rep.check(okl, "C04-R5", qual(oc), "merging continues until the "
               "target is met or no merge removes an entry (goodness <= 0)",
               construct="ordered_covering loop", node=oc)
